@@ -38,6 +38,8 @@ Definition F := false.
 
 
 KNOWN_F1 = "F1-reestablish-signs-unrecorded-counterparty-commitment"
+KNOWN_F2 = "F2-early-revoke-and-ack-advances-past-an-unsigned-commitment"
+KNOWN = (KNOWN_F1, KNOWN_F2)
 
 
 def cb(b):
@@ -175,6 +177,7 @@ class NodeTrace:
         self.unsolicited = []     # (step, number, kind): revocation stored without a newer commitment recorded
         self.unrecorded_signs = []  # (step, number, act, t, prev_aw, prev_mpc)
         self.inject_states = []   # (kind, receiver state label)
+        self.early_accepted = []  # (step, number, kind): raa_early accepted while the commitment_signed was still pending on a monitor update
 
     def add_step(self, step, obs):
         n = self.n
@@ -255,10 +258,12 @@ class NodeTrace:
             # A new commitment can be built in ANY step, for either node: the harness drains both nodes'
             # pending message events after every action, which lets the ChannelManager free holding cells
             # (after a reestablish, a monitor completion, ...). ORecvCS / ORecvRAA already carry that bit.
+            if view is not None and prev.get("qu") and not view.get("qu") and act not in ("disconnect", "reload", "reload_stale"):
+                ops.append("OExitQuiescence")      # (frees the holding cell: a commitment may follow in the same step)
             accounted = any(o.startswith("ORecvCS") or o.startswith("ORecvRAA") for o in ops)
             if not accounted and (not prev["aw"]) and view is not None and view["aw"]:
                 ops.append("OCommit %s" % cb(not view["mon"]))
-            if not ops and view is not None and (not prev["mon"]) and view["mon"]:
+            if not [o for o in ops if o != "OExitQuiescence"] and view is not None and (not prev["mon"]) and view["mon"]:
                 # a monitor update that carries no commitment (e.g. a preimage while the claim sits in the holding cell)
                 ops.append("OMonUpdate F")
             # the stfu handshake (its conditions depend on HTLC content): the flags as the node set them
@@ -267,8 +272,6 @@ class NodeTrace:
                     ops.append("OStfuSent")
                 if not prev.get("qu") and view.get("qu"):
                     ops.append("OQuiescent")
-                if prev.get("qu") and not view.get("qu") and act not in ("disconnect", "reload", "reload_stale"):
-                    ops.append("OExitQuiescence")
         # re-signing of the current holder commitment by the monitor after the close
         n_sh = sum(1 for e in sig if e[0] == "sign_holder")
         if self.locked:
@@ -303,6 +306,8 @@ class NodeTrace:
                     self.events.append(("announce", num - 2, args["next_point"]))
                     if (num - 1) not in self.cp_recorded:
                         self.unsolicited.append((step["i"], num, args.get("corrupt")))
+                    if args.get("corrupt") == "raa_early" and prev["mon"] and prev["mpc"]:
+                        self.early_accepted.append((step["i"], num, "raa_early"))
                     self.first_announced.setdefault(num - 2, args["next_point"])
             elif kind == "sign_holder_htlc":
                 self.htlc_signs.append((len(self.events), num))
@@ -392,8 +397,9 @@ def judge_node(tr):
     for pos, e in enumerate(tr.events + [None]):
         while idx_htlc < len(hs) and hs[idx_htlc][0] == pos:
             k = hs[idx_htlc][1]
-            if k != vh or any(r_ >= 0 and k >= r_ for r_ in rels):
-                out.append({"why": "an HTLC transaction of holder commitment %d was signed while the latest validated is %d / released: %s" % (k, vh, rels[-3:])})
+            if k < vh or any(k >= r_ for r_ in rels):
+                out.append({"why": "an HTLC transaction of holder commitment %d was signed: %s (latest validated %d, released: %s)"
+                                   % (k, "that commitment is revoked" if any(k >= r_ for r_ in rels) else "no such commitment was validated", vh, rels[-3:])})
             idx_htlc += 1
         if e is None:
             break
@@ -425,9 +431,10 @@ def judge_node(tr):
                            % (num, num - 1, sti, kind or "as sent")})
     for (sti, num, act, t, aw, mpc, corrupt) in tr.unrecorded_signs[:1]:
         on_reest = act == "deliver" and t == "reest" and not aw
+        after_early = any(k == "raa_early" for (_, _, k) in tr.early_accepted)
         out.append({"why": "commitment_signed for counterparty commitment %d was signed although that commitment was never handed to the monitor (step %d, %s%s; awaiting_remote_revoke before: %s, commitment_signed pending a monitor update before: %s)"
                            % (num, sti, act, "/" + str(t) if t else "", aw, mpc),
-                    "key_override": KNOWN_F1 if on_reest else None})
+                    "key_override": KNOWN_F1 if on_reest else (KNOWN_F2 if after_early else None)})
     for st, txid in tr.bcast_unsigned:
         out.append({"why": "a transaction spending the funding output was broadcast that was not signed through sign_holder_commitment (step %d, txid %s)" % (st, txid)})
     return out
@@ -469,9 +476,32 @@ def revoke_corr(ctx, model_ok, release=False):
     act_hist, ev_hist, corrupt_hist = {}, {}, {}
     n_steps = 0
     panics = []
+    n_fallen_behind = [0]
     for rec in recs:
         rp = {"seed": rec["seed"], "k": rec["k"], "max_steps": rec["max_steps"], "flags": rec["flags"]}
-        if rec.get("panic"):
+        early = any((st.get("args") or {}).get("corrupt") == "raa_early" for st in rec["steps"])
+        # C05-F2: an early revoke_and_ack accepted while our commitment_signed still waits for its monitor update;
+        # when the update completes the node signs the number after the one it built (TestChannelSigner: "N-1 doesn't come after N+1")
+        early_unsigned = None
+        pv = [rec["init"][0]["view"], rec["init"][1]["view"]]
+        for st in rec["steps"]:
+            a = st.get("args") or {}
+            if st["act"] == "deliver" and a.get("corrupt") == "raa_early" and st.get("obs") and pv[st["node"]]:
+                v0, v1 = pv[st["node"]], st["obs"][st["node"]]["view"]
+                if v0["aw"] and v0["mon"] and v0["mpc"] and v1 is not None and v1["cn"] == v0["cn"] - 1 and v1["mpc"]:
+                    early_unsigned = (st["i"], st["node"], v0["cn"])
+            if st.get("obs"):
+                pv = [o["view"] for o in st["obs"]]
+        m2 = __import__("re").search(r"(\d+) doesn't come after (\d+)", str(rec.get("panic") or ""))
+        if rec.get("panic") and early_unsigned and m2 and int(m2.group(2)) - int(m2.group(1)) == 2 and int(m2.group(1)) == early_unsigned[2] - 1:
+            panics.append({"why": "after a revoke_and_ack that arrived before our commitment_signed for counterparty commitment %d was signed (its monitor update in flight, step %d) the node signs commitment %d: the signer is asked to skip a commitment number (%s)"
+                                  % (early_unsigned[2], early_unsigned[0], early_unsigned[2] - 1, m2.group(0)),
+                           "replay": rp, "key": KNOWN_F2, "node": early_unsigned[1]})
+        elif rec.get("panic") and early and "We have fallen behind" in str(rec["panic"]):
+            # the harness revealed the peer's current secret (raa_early, accepted because a revocation WAS awaited);
+            # the peer later sees proof of a secret it never released and panics on purpose (data-loss protection)
+            n_fallen_behind[0] += 1
+        elif rec.get("panic"):
             panics.append({"why": "panic in the node or in the test signer's own policy assertions: " + str(rec["panic"])[:300], "replay": rp,
                            "key": "panic:" + str(rec["panic"])[:80], "last_steps": [{"act": s["act"], "node": s.get("node"), "args": s.get("args")} for s in rec["steps"][-6:]]})
         trs = [NodeTrace(n, rec["init"][n]) for n in (0, 1)]
@@ -560,7 +590,13 @@ def revoke_corr(ctx, model_ok, release=False):
     for _, _, tr in traces:
         for c, lab in tr.inject_states:
             inj["%s@%s" % (c, lab)] = inj.get("%s@%s" % (c, lab), 0) + 1
+    foc = {}
+    for rec in recs:
+        if rec.get("focus"):
+            foc[rec["focus"]] = foc.get(rec["focus"], 0) + 1
+    ctx.coverage[pre + "revoke_focused_scenarios(state:kind)"] = foc
     ctx.coverage[pre + "revoke_injected_messages_by_receiver_state"] = inj
+    ctx.coverage[pre + "revoke_peer_data_loss_panics_after_accepted_early_raa"] = n_fallen_behind[0]
     ctx.coverage[pre + "revoke_deliveries_while_manager_held_back"] = sum(tr.held_deliveries for _, _, tr in traces)
     ctx.coverage[pre + "revoke_monitor_api_broadcasts_on_live_channel"] = act_hist.get("mon_broadcast", 0)
     ctx.coverage[pre + "revoke_scenarios_closed"] = sum(1 for rec in recs if any(o["view"] is None for s in rec["steps"][-1:] for o in (s.get("obs") or [])))
